@@ -43,8 +43,8 @@ def sources(tier, seed, ctx):
         for big in (False, True):
             for n in (2, 3):
                 srcs.append({'fn': 'mul-alias', 'n': n, 'mode': mode, 'big': big, 'host': {'seed': rng.randrange(10**6), 'ni': 3, 'ng': 4} if n == 2 else None})
-    wide = [(18, 18, 'KARATSUBA'), (20, 20, 'DEFAULT'), (21, 21, 'KARATSUBA'), (24, 15, 'KARATSUBA'), (23, 23, 'KARATSUBA'), (25, 19, 'KARATSUBA'), (19, 19, 'DEFAULT'), (15, 15, 'POW2_M1')] if tier == 'quick' else \
-        [(18, 18, 'KARATSUBA'), (20, 20, 'DEFAULT'), (21, 21, 'KARATSUBA'), (24, 15, 'KARATSUBA'), (40, 40, 'DEFAULT'), (17, 19, 'DADDA'), (16, 16, 'WALLACE'), (15, 15, 'POW2_M1'), (12, 20, 'ALTER')]
+    wide = [(18, 18, 'KARATSUBA'), (20, 20, 'DEFAULT'), (21, 21, 'KARATSUBA'), (24, 15, 'KARATSUBA'), (23, 23, 'KARATSUBA'), (25, 19, 'KARATSUBA'), (19, 19, 'DEFAULT'), (15, 15, 'POW2_M1'), (25, 25, 'POW2_M1'), (31, 31, 'POW2_M1'), (24, 40, 'POW2_M1'), (26, 26, 'DADDA'), (26, 26, 'WALLACE'), (26, 26, 'ALTER')] if tier == 'quick' else \
+        [(18, 18, 'KARATSUBA'), (20, 20, 'DEFAULT'), (21, 21, 'KARATSUBA'), (24, 15, 'KARATSUBA'), (40, 40, 'DEFAULT'), (17, 19, 'DADDA'), (16, 16, 'WALLACE'), (15, 15, 'POW2_M1'), (12, 20, 'ALTER'), (25, 25, 'POW2_M1'), (31, 31, 'POW2_M1'), (33, 40, 'POW2_M1'), (63, 63, 'POW2_M1'), (26, 26, 'DADDA'), (26, 26, 'WALLACE'), (30, 30, 'ALTER'), (23, 23, 'KARATSUBA'), (25, 19, 'KARATSUBA')]
     for n, m, mode in wide:
         srcs.append({'fn': 'mul', 'n': n, 'm': m, 'mode': mode, 'big': bool(n % 2), 'gen': True, 'host': None})
     for n in range(1, (7 if tier == 'quick' else 10) + 1):
